@@ -55,6 +55,16 @@ func TestGowpReplayC26(t *testing.T) {
 			}
 		}
 	}
+	// the wrapper used by the REPL hands back the last chunk of an input without a final newline
+	{
+		g := NewGlobals()
+		g.Readline = MakeBufReadline(bufio.NewReader(strings.NewReader("a = 1\nb = 2")))
+		c0, _ := g.ReadMultiline(0, "")
+		c1, _ := g.ReadMultiline(0, "")
+		if c0 != "a = 1\n" || c1 != "b = 2" {
+			t.Fatalf("GOWP-REPLAY-FAIL Globals.ReadMultiline on %q: chunks %q and %q, want %q and %q", "a = 1\nb = 2", c0, c1, "a = 1\n", "b = 2")
+		}
+	}
 	if tried < 100 {
 		t.Fatalf("only %d lines tried", tried)
 	}
@@ -62,5 +72,6 @@ func TestGowpReplayC26(t *testing.T) {
 `
 
 func init() {
+	replayers["C26|*"] = &replayer{pkg: "base", test: "TestGowpReplayC26", kind: "search", source: func(map[string]string, string) string { return replayC26 }}
 	replayers["base.ReadMultiline"] = &replayer{pkg: "base", test: "TestGowpReplayC26", kind: "search", source: func(map[string]string, string) string { return replayC26 }}
 }
